@@ -329,6 +329,8 @@ def gen_url(rng, exotic=0.12):
         if k == 'trailing':
             return rng.choice(['img/', '.', '..', './', '../', 'img/.', 'img/..', '../..', 'a/b/']), k
         if k == 'reserved':
+            if rng.random() < 0.25:
+                return rng.choice(['./a:b.png', './x:y/z.png', '../c:d.gif']), k
             return gen_rel_path(rng, False).replace('.', rng.choice(['@2x.', ';v=1.', '+.', ',.', '!.', '$.', "&.", '=.',
                                                                      '*.', ':.']), 1), k
         if k == 'space':
